@@ -597,8 +597,18 @@ def crash_violation(ctx, transcript, out, prefix):
     where = re.search(r"\n(github.com/Lumerin-protocol/proxy-router/internal/[^\n(]*)\([^\n]*\n\t(/[^\s]*/internal/[^\s]*)", out[m.end():])
     site = (where.group(2).replace(REPO + "/", "") if where else "?")
     sig = "%s:process-crash-%s" % (prefix, re.sub(r"[^A-Za-z0-9]+", "-", site.split(":")[0].split("/")[-1]))
+    ops = [l for l in lines if l.startswith("> ")]
+    # the op the harness was executing when the process died is on record as a note ("# doing <op>") but not as an op
+    doing = None
+    for l in open(path, errors="replace"):
+        if l.startswith("# case"):
+            doing = None
+        elif l.startswith("# doing "):
+            doing = "> " + l[len("# doing "):].rstrip("\n")
+    if doing and (not ops or ops[-1] != doing):
+        ops.append(doing)
     violation(ctx, sig, "the process died: %s at %s" % (m.group(1), site),
-              {"clause": "no input crashes the process", "case": h, "ops": [l for l in lines if l.startswith("> ")], "panic": m.group(1), "site": site,
+              {"clause": "no input crashes the process", "case": h, "ops": ops, "panic": m.group(1), "site": site,
                "how_to_replay": "bin/check %s --replay <this file>" % ctx.pid})
     return True
 
